@@ -229,6 +229,29 @@ def same_cap(impl_out, model_out):
 ERRS = ("err ValueError", "err IndexError", "err TypeError", "err OverflowError", "err Other")
 
 
+def canon_capf(model_out):
+    """`capf` lines: the model returns the eigenvalue estimates as exact fractions of doubles; the code reports their
+    logarithms. `numpy.log2` and `numpy.median` are applied to the model's doubles HERE (the same library calls the code
+    makes, on bit-identical arguments), after which the two lines must be equal character for character."""
+    import numpy as np
+    from fractions import Fraction
+    t = model_out.split(" ")
+    if t[0] != "ok" or len(t) != 3:
+        return model_out
+
+    def dbl(tok):
+        n, d = tok.split("/")
+        f = Fraction(int(n), int(d))
+        x = float(f)
+        if Fraction(x) != f:
+            raise ValueError("model value is not a double: " + tok)
+        return x
+    res = [float(np.log2(dbl(x))) for x in t[1].split(",")]
+    recs = [[float(np.log2(dbl(x))) for x in r.split(",")] for r in t[2].split(";")]
+    # (log2(1.0) == 0.0 is what the code reports for an estimate that does not exceed the tolerance)
+    return "ok " + float(np.median(res)).hex() + " " + ";".join(",".join((x + 0.0).hex() for x in r) for r in recs)
+
+
 def observable(line, out):
     """what the properties say about the result of one operation (a harmless rewrite may change the rest:
     bookkeeping statistics, the recorded path, the class of an error no property names - DESIGN.md §10.6):
@@ -257,6 +280,11 @@ def same(line, impl_out, model_out):
         return True
     if line.startswith("cap "):
         return same_cap(impl_out, model_out)
+    if line.startswith("capf "):
+        try:
+            return impl_out == canon_capf(model_out)
+        except Exception:
+            return False
     if line.startswith("dec ") and model_out == "err IndexError" and (impl_out in ERRS or impl_out.startswith("ok ")):
         # fast-mode decoding of a string that carries more bits than requested: outside C06's fast-mode clause
         # (the model raises IndexError there because the pinned code does; no property says what must happen)
